@@ -141,6 +141,25 @@ theorem fingerprint_policy_real (dg : Digests) (fps : List Fingerprint) :
         asciiLower f.value = asciiLower (digestOf dg (asciiLower f.algorithm))) :=
   fingerprint_policy asciiLower asciiLower ALGS (digestOf dg) fps
 
+theorem algs_lower_fixed : ∀ a ∈ ALGS, asciiLower a = a := by decide
+
+/-- Round trip between the two ends: what `getFingerprints()` signals for a certificate is accepted by the policy
+for that very certificate — for all digests (stateless: it depends on nothing but the certificate's digests). -/
+theorem local_fingerprints_accepted (dg : Digests) : acceptedReal dg (localFingerprints dg) = true := by
+  rw [fingerprint_policy_real]
+  constructor
+  · refine ⟨⟨strOf "sha-256", digestOf dg (strOf "sha-256")⟩, ?_,
+      (by decide : asciiLower (strOf "sha-256") ∈ ALGS)⟩
+    unfold localFingerprints
+    rw [algs_const]
+    simp
+  · intro f hf _
+    unfold localFingerprints at hf
+    obtain ⟨a, ha, rfl⟩ := List.mem_map.1 hf
+    simp only
+    rw [algs_lower_fixed a ha]
+
+
 theorem lowerC_idem (c : Nat) : lowerC (lowerC c) = lowerC c := by grind [lowerC]
 theorem lowerC_upperC (c : Nat) : lowerC (upperC c) = lowerC c := by
   grind [lowerC, upperC]
@@ -520,7 +539,7 @@ theorem inv_step {evs : List Ev} {t : T} (h : Inv evs t) (e : Ev) : Inv (evs ++ 
   | sendData d =>
     simp only [step]
     split <;> exact h.mono _
-  | sendRtp d =>
+  | sendRtp d pok =>
     simp only [step]
     split
     · exact h.mono _
@@ -608,7 +627,7 @@ theorem step_to_connected (t : T) (e : Ev) (h0 : t.state ≠ .connected) (h1 : (
     · split at h1 <;> simp_all
     · simp_all
   | sendData d => simp only [step] at h1; split at h1 <;> simp_all
-  | sendRtp d =>
+  | sendRtp d pok =>
     simp only [step] at h1
     split at h1 <;> (try split at h1) <;> simp_all
   | stop =>
@@ -617,8 +636,18 @@ theorem step_to_connected (t : T) (e : Ev) (h0 : t.state ≠ .connected) (h1 : (
 
 /-- `_send_data` / `_send_rtp` refuse (ConnectionError) unless CONNECTED, and change nothing. -/
 theorem send_refused_unless_connected (t : T) (d : Bytes) (h : t.state ≠ .connected) :
-    step t (.sendData d) = (t, [.refused]) ∧ step t (.sendRtp d) = (t, [.refused]) := by
+    step t (.sendData d) = (t, [.refused]) ∧ ∀ pok, step t (.sendRtp d pok) = (t, [.refused]) := by
   simp [step, h]
+
+/-- `_send_rtp` never changes the transport, whether or not libsrtp accepts the packet; when `protect` refuses
+it the exception is visible to the caller (it is not a silent loss). -/
+theorem sendRtp_state_unchanged (t : T) (d : Bytes) (pok : Bool) : (step t (.sendRtp d pok)).1 = t := by
+  simp only [step]; split <;> (try split) <;> rfl
+
+theorem sendRtp_protect_failure_visible (t : T) (d : Bytes) (h : t.state = .connected) :
+    Eff.raised "Error" ∈ (step t (.sendRtp d false)).2 := by
+  simp only [step, h, ne_eq, not_true_eq_false, ↓reduceIte, Bool.false_eq_true]
+  split <;> simp
 
 /-- Under the invariant, whatever is handed to a data / RTP / RTCP receiver or sent as application data /
 SRTP in a step, the transport was CONNECTED when the step began. -/
@@ -674,7 +703,7 @@ theorem step_payload_connected {evs : List Ev} {t : T} (h : Inv evs t) (e : Ev) 
     split at he
     · simp at he; subst he; simp [isDelivery, isSent] at hp
     · rename_i hc; simpa using hc
-  | sendRtp d =>
+  | sendRtp d pok =>
     simp only [step] at he
     split at he
     · simp at he; subst he; simp [isDelivery, isSent] at hp
@@ -753,7 +782,7 @@ theorem connected_stays {evs : List Ev} {t : T} (h : Inv evs t) (hc : t.state = 
     · split <;> simp [hc]
     · exact hc
   | sendData d => simp only [step]; split <;> exact hc
-  | sendRtp d => simp only [step]; split <;> (try split) <;> exact hc
+  | sendRtp d pok => simp only [step]; split <;> (try split) <;> exact hc
   | stop => simp only [step]; split <;> (try split) <;> simp [hc]
 
 theorem connected_stays_run {pre : List Ev} {t : T} (h : Inv pre t)
@@ -826,5 +855,165 @@ example : run (init TABLE true .auto) exIntruder =
 
 /-- no common SRTP profile: OpenSSL reports no selected profile. -/
 example : (run (init TABLE true .auto) [.start exFps true, .hsOk exDg "" []]).1.state = .failed := by decide
+
+/-! ## 4. the replay windows of the two SRTP sessions (`_setup_srtp`: `rx_policy` / `tx_policy`)
+
+"every RTP packet sent by one side is received by the other": a packet that the SENDING session encrypts
+(its own replay window lets the index through) must not be thrown away by the RECEIVING session as too old.
+That holds for every sequence of packet indexes — re-ordered, repeated, jumping backwards, with losses —
+iff the receiving window is at least as wide as the sending one. -/
+
+/-- The receiver has never seen an index beyond the sender's highest one. -/
+def LinkInv (l : Link) : Prop := l.rx.hi ≤ l.tx.hi
+
+theorem linkInv_init : LinkInv {} := Nat.le_refl _
+
+theorem recv_inv {l : Link} (wrx i : Nat) (a : Bool) (h : LinkInv l) (hi : i ≤ l.tx.hi) :
+    LinkInv (l.recv wrx i a).1 := by
+  unfold Link.recv
+  split
+  · exact h
+  · exact h
+  · split
+    · exact h
+    · simp only [LinkInv, Rdb.add] at *; omega
+
+theorem send_inv {l : Link} (wtx wrx : Nat) (rep : Bool) (i : Nat) (a : Bool) (h : LinkInv l) :
+    LinkInv (l.send wtx wrx rep i a).1 := by
+  unfold Link.send
+  split
+  · exact h
+  · rename_i hc
+    split
+    · refine recv_inv wrx i a h ?_
+      unfold Rdb.check at hc
+      split at hc
+      · simp at hc
+      · omega
+    · exact h
+  · refine recv_inv wrx i a ?_ ?_
+    · simp only [LinkInv, Rdb.add] at *; omega
+    · simp only [Rdb.add]; omega
+
+theorem recv_not_old {l : Link} {wrx i : Nat} (a : Bool) (h : l.rx.check wrx i ≠ .old) :
+    (l.recv wrx i a).2 ≠ .rxOld := by
+  unfold Link.recv
+  split
+  · rename_i hc; exact absurd hc h
+  · simp
+  · split <;> simp
+
+/-- A packet that passes the sender's window is never "too old" for a receiver whose window is not narrower. -/
+theorem send_not_rxOld {l : Link} {wtx wrx : Nat} (hw : wtx ≤ wrx) (rep : Bool) (i : Nat) (a : Bool)
+    (h : LinkInv l) : (l.send wtx wrx rep i a).2 ≠ .rxOld := by
+  unfold Link.send
+  split
+  · simp
+  · rename_i hc
+    split
+    · refine recv_not_old a ?_
+      unfold Rdb.check at hc ⊢
+      unfold LinkInv at h
+      split at hc
+      · simp at hc
+      · split at hc
+        · simp at hc
+        · split
+          · simp
+          · split
+            · omega
+            · split <;> simp
+    · simp
+  · rename_i hc
+    refine recv_not_old a ?_
+    unfold Rdb.check at hc ⊢
+    unfold LinkInv at h
+    simp only [Rdb.add]
+    split at hc
+    · split
+      · simp
+      · omega
+    · split at hc
+      · simp at hc
+      · split
+        · simp
+        · split
+          · omega
+          · split <;> simp
+
+theorem run_not_rxOld {wtx wrx : Nat} (hw : wtx ≤ wrx) (rep : Bool) (pkts : List (Nat × Bool)) :
+    ∀ {l : Link}, LinkInv l → PktOut.rxOld ∉ (Link.run wtx wrx rep l pkts).2 := by
+  induction pkts with
+  | nil => intro l _; simp [Link.run]
+  | cons p ps ih =>
+    intro l h
+    obtain ⟨i, a⟩ := p
+    simp only [Link.run, List.mem_cons, not_or]
+    exact ⟨fun e => send_not_rxOld hw rep i a h e.symm, ih (send_inv wtx wrx rep i a h)⟩
+
+/-- Whatever the order, repetition, backward jumps and in-transit damage of the packets of one SSRC: when the
+receiving policy's window is at least the sending policy's, no packet that the sender put on the wire is
+discarded as too old. (`window_size` 0 is libsrtp's default 128.) -/
+theorem window_no_silent_loss (wtx wrx : Nat) (hw : effWindow wtx ≤ effWindow wrx) (rep : Bool)
+    (pkts : List (Nat × Bool)) :
+    PktOut.rxOld ∉ (Link.run (effWindow wtx) (effWindow wrx) rep {} pkts).2 :=
+  run_not_rxOld hw rep pkts linkInv_init
+
+/-- The only other way an unaltered packet is not delivered: the receiver has already delivered that index. -/
+theorem send_rxReplay_seen {l : Link} {wtx wrx : Nat} {rep : Bool} {i : Nat} {a : Bool}
+    (h : (l.send wtx wrx rep i a).2 = .rxReplay) : i ∈ l.rx.seen := by
+  have key : ∀ l' : Link, l'.rx = l.rx → (l'.recv wrx i a).2 = .rxReplay → i ∈ l.rx.seen := by
+    intro l' hl hr
+    unfold Link.recv at hr
+    split at hr
+    · simp at hr
+    · rename_i hc
+      unfold Rdb.check at hc
+      rw [hl] at hc
+      split at hc
+      · simp at hc
+      · split at hc
+        · simp at hc
+        · split at hc
+          · assumption
+          · simp at hc
+    · split at hr <;> simp at hr
+  unfold Link.send at h
+  split at h
+  · simp at h
+  · split at h
+    · exact key l rfl h
+    · simp at h
+  · exact key { l with tx := l.tx.add i } rfl h
+
+/-- An index enters the receiver's database exactly when it is delivered. -/
+theorem send_rx_seen (l : Link) (wtx wrx : Nat) (rep : Bool) (i : Nat) (a : Bool) :
+    (l.send wtx wrx rep i a).1.rx.seen =
+      if (l.send wtx wrx rep i a).2 = .delivered then i :: l.rx.seen else l.rx.seen := by
+  have key : ∀ l' : Link, l'.rx = l.rx → (l'.recv wrx i a).1.rx.seen =
+      if (l'.recv wrx i a).2 = .delivered then i :: l.rx.seen else l.rx.seen := by
+    intro l' hl
+    unfold Link.recv
+    split
+    · simp [hl]
+    · simp [hl]
+    · split <;> simp [hl, Rdb.add]
+  unfold Link.send
+  split
+  · simp
+  · split
+    · exact key l rfl
+    · simp
+  · exact key { l with tx := l.tx.add i } rfl
+
+/-- equal windows of 1024 (the pinned code): 1023 behind is delivered, a repeat is a replay, 1024 behind is
+refused by the SENDER (visible), nothing is lost silently -/
+example : (Link.run 1024 1024 true {} [(5000, false), (3977, false), (3977, false), (3976, false), (5001, true),
+    (5001, false)]).2 = [.delivered, .delivered, .rxReplay, .txRefused, .authFail, .delivered] := by decide
+/-- a receiving window narrower than the sending one (rx_policy left at libsrtp's default): the sender encrypts
+a packet 128 behind, the receiver silently drops it -/
+example : (Link.run (effWindow 1024) (effWindow 0) true {} [(5000, false), (4873, false), (4872, false)]).2 =
+    [.delivered, .delivered, .rxOld] := by decide
+example : effWindow 1024 ≤ effWindow 1024 := by decide
 
 end Aiortc.Props.C04
